@@ -1,15 +1,23 @@
 # Driver configuration for property C02
 PROP = dict(
     pkg="c02", level="exploration",
-    technique="metamorphic PBT: single-field tampering of valid generated blocks must be rejected and leave no trace; reference-sealed valid chain must be accepted",
-    level_text=("Exploration: for generated valid chains every case tampers one committed field (table derived from the protocol formats, not from "
+    technique="metamorphic PBT: single-field tampering of valid generated blocks must be rejected and leave no trace, on a network configuration drawn per case; reference-sealed valid chain must be accepted on every network",
+    level_text=("Exploration: every case draws the network configuration the node runs on (sepolia, mainnet, sepolia-integration or a custom network with "
+                "its own chain id, First07Block, fallback sequencer address and unverifiable range not containing the tampered height); "
+                "for generated valid chains sealed for that network every case tampers one committed field (table derived from the protocol formats, not from "
                 "juno's preimage code) at a drawn position and checks rejection on a drawn backend, byte-identical DB image and unchanged event "
                 "answers after the rejection, and acceptance of the valid block afterwards. Per-tamper histogram in evidence."),
-    rule=("chain 1-5 blocks x position p x ~150 tampers (header fields; invoke/declare/deploy-account/l1-handler fields per version with stored or "
-          "recomputed tx hash; signature; receipt fee/status/reason/gas/messages; events from/keys/data/order/emitting tx; state-diff entries with "
+    rule=("network {sepolia, mainnet (First07Block 833), sepolia-integration, custom: chain id from a pool or random, First07Block in {0,1..5,833,1000} so that "
+          "new-format blocks lie below / straddle / above it, fallback sequencer address none|sepolia's|random, unverifiable range none | [n+0..2, ...] | "
+          "[.., <p]} x chain 1-5 blocks x position p x ~155 tampers (header fields; invoke/declare/deploy-account/l1-handler fields per version with stored or "
+          "recomputed tx hash; one/all transactions hashed for a foreign chain id with stored or recomputed block hash; signature; receipt fee/status/reason/gas/messages; events from/keys/data/order/emitting tx; state-diff entries with "
           "stored or recomputed block hash; old/new root; Sierra class body; number/parent/unsupported version with valid hash). Every case is "
-          "non-trivial (a committed field changed); distinct = tamper name x position x block hash."),
-    assumptions=["not in the tamper set because not committed by the implemented/fixture-confirmed formulas: events bloom, header signatures, execution "
+          "non-trivial (a committed field changed); distinct = tamper name x position x block hash x network configuration. "
+          "Labels net:*, first07:*, net:custom/unverifiable-range:* count the configuration classes."),
+    assumptions=["networks whose unverifiable range contains the generated heights (integration, goerli) are not drawn: inside the range juno documents that "
+                 "hashes are not verified; custom ranges never contain the tampered height p (heights below p may be inside: those valid blocks must be accepted)",
+                 "sequencer address is always present in generated headers (formats >= 0.13.2), so the fallback sequencer address must be irrelevant",
+                 "not in the tamper set because not committed by the implemented/fixture-confirmed formulas: events bloom, header signatures, execution "
                  "resources other than the gas vector, fee unit, L1->L2 message copy, L2 gas consumed, legacy Deploy / Declare v0 fields, Cairo-0 class bodies",
                  "valid blocks are sealed with the reference state root and juno's own block-hash function (formula correctness is pinned by the repository's fixture tests)"],
     runs=[dict(run="^Test(Prop|Known)")],
